@@ -303,8 +303,9 @@ pub fn run_c13(out: &mut Out, rng: &mut Rng, thorough: bool) {
     let b = match rng.below(4) { 0 => a, 1 => a * rng.f01().max(1e-3), 2 => a * 10f64.powf(-3.0 * rng.f01()), _ => a * (0.5 + 0.5 * rng.f01()) };
     let pa = rng.f01() * PI;
     let lon = if rng.chance(0.85) { p.lon - 2.0 * PI * (p.lon / (2.0 * PI)).floor() } else { p.lon };
-    // the guard is tested at depths 0..2 with delta_depth 0 only: if it were missing the answer would still be small
-    let (depth, dd) = if a >= PI / 2.0 * (1.0 - 1e-9) { (depth % 3, 0) } else { (depth, dd) };
+    // the guard is tested at depths 0..2: if it were missing the answer would still be small
+    // (shallow depths, every delta_depth 0..3: the custom variant computes at depth + delta_depth through another layer)
+    let (depth, dd) = if a >= PI / 2.0 * (1.0 - 1e-9) { (depth % 3, (rng.below(4) as u8).min(3)) } else { (depth, dd) };
     // one ellipse in eight is centred bit for bit on a cell centre of the layer (or of the deeper layer) with b well
     // below the cell size: the branch of overlap_cone where the projected centre is (0, 0)
     if a < PI / 2.0 && rng.chance(0.125) {
